@@ -49,7 +49,7 @@ def time_contract(cls):
         note='strings without a fraction: accepted iff they end in Z, carry no +/- zone, no comma and fit the window')
 
 
-from pyvc.core import PRecSeq, Length
+from pyvc.core import PRecSeq, Length, mk_seq
 
 TAG_SORT_KEY = Contract(
     id='cer.encoder::SetEncoder._tagSortKey', file=F, qual='SetEncoder._tagSortKey', properties=['C03', 'C04'],
@@ -136,3 +136,60 @@ DER_SORT_KEY = Contract(
     note='however deeply the untagged CHOICEs nest, the key is taken from the tags that go on the wire; a *tagged* CHOICE '
          'is placed by its own tags (cer.encoder::SetEncoder._tagSortKey turns the tag set into (class, number))')
 CONTRACTS = CONTRACTS + [DER_SORT_KEY]
+
+
+# ---- CER/DER SET OF (X.690 11.6): member encodings in ascending order, shorter ones padded with zero octets for comparison --------
+# Bounded: collections of 0..3 members (the sort is python's list.sort, axiomatised for the keys at hand); labelled so.
+NSET = 3
+_CH = [z3.Const('member%d' % i, z3.SeqSort(z3.IntSort())) for i in range(NSET)]
+
+
+def _setof_components(ex, self, value, asn1Spec, encodeFun, **options):
+    """assumed contract of SequenceOfEncoder._encodeComponents (proved: ber.encoder::SequenceOfEncoder._encodeComponents):
+    one chunk per member, in the order the members are held"""
+    from pyvc.core import inr
+    n = z3.Int('nMembers')
+    ex.assume(z3.And(n >= 0, n <= NSET))
+    out = []
+    for i in range(NSET):
+        if ex.choose(n > i, 'has-member-%d' % i):
+            ex.assume(inr(_CH[i]))
+            out.append(SeqV(_CH[i], 'bytes'))
+    return Tup(out, 'list')
+
+
+def _sorted_concat(ex, result):
+    """result is the concatenation of the members in some arrangement whose zero-padded encodings ascend"""
+    import itertools
+    from pyvc.core import SEQ_LE, toint
+    from spec.smt import zeros
+    n = z3.Int('nMembers')
+    cases = []
+    for k in range(NSET + 1):
+        lens = [z3.Length(c) for c in _CH[:k]]
+        mx = None
+        for ln in lens:
+            mx = ln if mx is None else z3.If(mx >= ln, mx, ln)
+        pads = [z3.Concat(c, zeros(z3.If(mx > z3.Length(c), mx - z3.Length(c), z3.IntVal(0)))) for c in _CH[:k]] if k else []
+        perms = []
+        for perm in itertools.permutations(range(k)):
+            parts = [_CH[i] for i in perm]
+            cat = z3.Empty(z3.SeqSort(z3.IntSort())) if not parts else (parts[0] if len(parts) == 1 else z3.Concat(*parts))
+            order = [SEQ_LE(pads[i], pads[j]) for i, j in zip(perm, perm[1:])]
+            perms.append(z3.And(result.z == cat, *order))
+        cases.append(z3.Implies(n == k, z3.Or(*perms)))
+    return z3.And(*cases)
+
+
+CER_SETOF = Contract(
+    id='cer.encoder::SetOfEncoder.encodeValue[up-to-3-members]', file=F, qual='SetOfEncoder.encodeValue',
+    properties=['C03', 'C04', 'C02'],
+    params=dict(self=PObj('SetOfEncoder', methods={'_encodeComponents': _setof_components}),
+                value=PConst(Obj('SetOf', {}, name='value')), asn1Spec=PConst(None), encodeFun=PConst(None), options=POptions()),
+    globals={'sorted_concat': FnV(_sorted_concat, 'sorted_concat'), 'str2octs': FnV(lambda ex, s: SeqV(mk_seq([ord(c) for c in s]), 'bytes'), 'str2octs')},
+    ensures=[('members-in-ascending-order-of-padded-encodings', 'sorted_concat(result[0])'),
+             ('constructed', 'result[1] is True and result[2] is True')],
+    note='BOUNDED to collections of at most 3 members (python list.sort axiomatised for the keys at hand: stable, keys '
+         'compared as bytes); larger collections are covered by the cer-twin / der-twin stand-ins')
+CER_SETOF.bounded = 'SET OF values of at most 3 members (every arrangement of their encodings, of any lengths)'
+CONTRACTS = CONTRACTS + [CER_SETOF]
